@@ -37,6 +37,13 @@ type ErrInvalidGenesis struct{ Err error }
 
 func (e ErrInvalidGenesis) Error() string { return "invalid genesis: " + e.Err.Error() }
 
+// ErrEngineContract is returned when the validator set the application hands to the consensus engine at InitChain
+// cannot be applied (a validator of power 0, a removal of an unknown validator, an empty set ...): the real engine
+// would refuse to start the chain.
+type ErrEngineContract struct{ Err error }
+
+func (e ErrEngineContract) Error() string { return "engine contract: " + e.Err.Error() }
+
 // NewSim builds the genesis for spec, starts the replicas and runs InitChain on all of them.
 // The process-global chain context is reset for the new genesis, so only one Sim may be live
 // per process at any time.
@@ -70,7 +77,7 @@ func NewSim(spec *Spec, cfgs []ReplicaConfig) (*Sim, error) {
 	s.E, err = NewEngine(w, vups)
 	if err != nil {
 		s.Close()
-		return nil, err
+		return nil, ErrEngineContract{err}
 	}
 	return s, nil
 }
